@@ -369,9 +369,423 @@ impl FixtureDatabase {
     }
 @*/
 
+// ---- exec vacuity canaries: the same real bodies with the REAL contracts and injected `assert(false)`; each must FAIL
+/*@ extract src/fixtures/scanner.rs load_plugin_from_entry_point
+@tags C14
+@as canary_exec_load_plugin
+@recv mut
+@ret r
+@closure or_else:1 || -> (q: Option<PathBuf>) ensures opt_pbv(q) == op_resolve_editable(self.vst().er, entry.module_path@, 0)
+@wrapexpr 1 `path.file_name().and_then(|n| n.to_str())` => `Self::vp_file_name_str_l_c(&path)` with fn vp_file_name_str_l_c<'a>(path: &'a PathBuf) -> (r: Option<&'a str>) ensures osv(r) == file_name_v(pbv(path))
+@loopvar 1 it
+@sig
+    ensures (final(self).vst(), r as nat) == op_load_plugin(old(self).vst(), pv(dist_info_path), pv(site_packages)),
+        final(self).site_packages_paths == old(self).site_packages_paths,
+        final(self).editable_install_roots == old(self).editable_install_roots,
+        final(self).workspace_root == old(self).workspace_root,
+@start
+    let ghost st0 = self.vst();
+    let ghost f0 = *self;
+    let ghost sp = pv(site_packages);
+@before for 1
+    let ghost es = entries@;
+    proof { assert(es.len() == vstd::std_specs::vec::spec_vec_len(&entries)); }
+@loop 1
+    invariant it.seq() == es, sp == pv(site_packages), st0 == f0.vst(), es.len() <= usize::MAX,
+        (self.vst(), scanned_count as nat) == op_entries_fold(st0, sp, eps_v(es), it.index@ as int),
+        scanned_count <= it.index@,
+        self.site_packages_paths == f0.site_packages_paths, self.editable_install_roots == f0.editable_install_roots,
+        self.workspace_root == f0.workspace_root,
+@loopstart 1
+    proof { assert(eps_v(es)[it.index@ as int] == ep_v(entry)); }
+@after scan_plugin_directory 1
+    assert(false);
+@after scan_single_plugin_file 1
+    assert(false);
+@*/
+
+/*@ extract src/fixtures/scanner.rs discover_editable_installs
+@tags C14
+@as canary_exec_discover
+@recv mut
+@replace 1 `std::fs::read_dir(site_packages)` => `vp_read_dir(site_packages)`
+@replace 1 `serde_json::Value` => `VpJson`
+@replace 1 `serde_json::from_str(&content)` => `vp_json_from_str(&content)`
+@wrapexpr 1 `path.file_name().unwrap_or_default().to_string_lossy()` => `Self::vp_lossy_name_d_c(&path)` with fn vp_lossy_name_d_c<'a>(path: &'a PathBuf) -> (r: std::borrow::Cow<'a, str>) ensures cow_sv(r) == lossy_name_v(pbv(path))
+@wrapexpr 2 `filename` => `Self::vp_cow_str_d1_c(&filename)` with fn vp_cow_str_d1_c<'a>(filename: &'a std::borrow::Cow<'a, str>) -> (r: &'a str) ensures r@ == cow_sv(*filename)
+@wrapexpr 1 `&filename` => `Self::vp_cow_str_d2_c(&filename)` with fn vp_cow_str_d2_c<'a>(filename: &'a std::borrow::Cow<'a, str>) -> (r: &'a str) ensures r@ == cow_sv(*filename)
+@wrapexpr 1 `json .get("dir_info") .and_then(|d| d.get("editable")) .and_then(|e| e.as_bool()) .unwrap_or(false)` => `Self::vp_json_is_editable_c(&json)` with fn vp_json_is_editable_c(json: &VpJson) -> (r: bool) ensures r == json_editable(*json)
+@sig
+    ensures exists|idx: PthIndex| #[trigger] disc_post(old(self).vst(), final(self).vst(), pv(site_packages), idx),
+        final(self).site_packages_paths == old(self).site_packages_paths,
+        final(self).workspace_root == old(self).workspace_root,
+@start
+    let ghost st0 = self.vst();
+    let ghost f0 = *self;
+    let ghost sp = pv(site_packages);
+@return 1
+    assert(disc_post(st0, self.vst(), sp, arbitrary::<PthIndex>()));
+@return 2
+    assert(eis_v(self.editable_install_roots@) =~= Seq::<EiV>::empty());
+    assert(disc_post(st0, self.vst(), sp, pth_index));
+@before for 1
+    let ghost es = entries.entries();
+    let ghost mut i: int = 0;
+    proof { assert(eis_v(self.editable_install_roots@) =~= Seq::<EiV>::empty()); }
+@forloop 1 it
+    proof { assert(i == es.len()); }
+@loop 1
+    invariant 0 <= i <= es.len(), it.remaining() =~= es.skip(i), it.obeys_prophetic_iter_laws(), fs_dir(sp) == Some(es),
+        sp == pv(site_packages), fs_is_dir(sp), idx_ok(&pth_index, sp), st0 == f0.vst(),
+        self.vst() == (VSt { er: op_editables_fold(sp, &pth_index, es, i), ..st0 }),
+        self.site_packages_paths == f0.site_packages_paths, self.workspace_root == f0.workspace_root,
+    ensures i == es.len(),
+    decreases es.len() - i
+@loopstart 1
+    let ghost er0 = self.editable_install_roots@;
+    proof { assert(es.skip(i).drop_first() =~= es.skip(i + 1)); assert(entry == es[i]); i = i + 1; }
+@after push 1
+    proof { assert(eis_v(self.editable_install_roots@) =~= eis_v(er0).push(op_editable_of(sp, &pth_index, es[i - 1])->0)); assert(false); }
+@before count 1
+    proof { assert(disc_post(st0, self.vst(), sp, pth_index)); }
+@*/
+
+/*@ extract src/fixtures/scanner.rs scan_venv_site_packages
+@tags C14
+@as canary_exec_site_packages
+@recv mut
+@replace 1 `std::fs::read_dir(&lib_path)` => `vp_read_dir(&lib_path)`
+@wrapexpr 1 `path.file_name().unwrap_or_default().to_string_lossy()` => `Self::vp_lossy_name_s_c(&path)` with fn vp_lossy_name_s_c<'a>(path: &'a PathBuf) -> (r: std::borrow::Cow<'a, str>) ensures cow_sv(r) == lossy_name_v(pbv(path))
+@wrapexpr 3 `dirname` => `Self::vp_cow_str_s1_c(&dirname)` with fn vp_cow_str_s1_c<'a>(dirname: &'a std::borrow::Cow<'a, str>) -> (r: &'a str) ensures r@ == cow_sv(*dirname)
+@loopvar 1 it
+@sig
+    requires forall|p: PV| #[trigger] ep_fits(p),
+    ensures exists|idx: PthIndex| #[trigger] site_post(old(self).vst(), final(self).vst(), pv(venv_path), idx),
+        final(self).workspace_root == old(self).workspace_root,
+@start
+    let ghost st0 = self.vst();
+    let ghost f0 = *self;
+    let ghost venv = pv(venv_path);
+@before for 1
+    let ghost es = entries.entries();
+@loop 1
+    invariant it.seq() == es, *self == f0, st0 == f0.vst(), f0 == *old(self), venv == pv(venv_path), fs_dir(venv + str_pv(lib_name())) == Some(es),
+        fs_exists(venv + str_pv(lib_name())), forall|p: PV| #[trigger] ep_fits(p),
+        first_sp(es, 0) == first_sp(es, it.index@ as int),
+@loopstart 1
+    proof { assert(entry == es[it.index@ as int]); }
+@after push 1
+    let ghost st1 = self.vst();
+    proof {
+        assert(venv_sp(venv) == Some(pbv(&site_packages)));
+        assert(st1.sp =~= st0.sp.push(pbv(&site_packages)));
+        assert(st1 == (VSt { sp: st0.sp.push(pbv(&site_packages)), ..st0 }));
+    }
+@return 1
+    assert(false);
+    let idx = choose|idx: PthIndex| plugins_post(st1, self.vst(), pbv(&site_packages), idx);
+    assert(site_post(st0, self.vst(), venv, idx));
+@after push 2
+    let ghost st1 = self.vst();
+    proof {
+        assert(venv_sp(venv) == Some(pbv(&windows_site_packages)));
+        assert(st1.sp =~= st0.sp.push(pbv(&windows_site_packages)));
+        assert(st1 == (VSt { sp: st0.sp.push(pbv(&windows_site_packages)), ..st0 }));
+    }
+@return 2
+    assert(false);
+    let idx = choose|idx: PthIndex| plugins_post(st1, self.vst(), pbv(&windows_site_packages), idx);
+    assert(site_post(st0, self.vst(), venv, idx));
+@end
+    proof { assert(venv_sp(venv) is None); assert(site_post(st0, self.vst(), venv, arbitrary::<PthIndex>())); }
+@*/
+
 }
 } // mod rw
 } // mod ro
+
+// =====================================================================================================================
+// L2 — property C14, second sentence, database level.  Every lemma is PROVED from the operational specs (prelude/scanvenv_spec2.rs).
+
+/// what the plugin scan never takes away / never touches: plugin marks only grow; the site-packages list, the editable
+/// installs and the workspace root are left alone
+pub open spec fn grows(a: VSt, b: VSt) -> bool { a.plugins.subset_of(b.plugins) && a.sp == b.sp && a.er == b.er && a.ws == b.ws }
+//@tags C14
+pub proof fn lemma_C14_mark_analyze(st: VSt, p: PV)
+    ensures grows(st, op_mark_analyze(st, p)), op_mark_analyze(st, p).plugins.contains(canon_or_self(p)),
+        // the analysis runs AFTER the mark: it sees the file as a plugin file
+        match fs_read(p) { Some(t) => op_mark_analyze(st, p).idx == an_eff(VSt { plugins: st.plugins.insert(canon_or_self(p)), ..st }, p, t, true),
+                           None => op_mark_analyze(st, p).idx == st.idx },
+{}
+proof fn lemma_dir_fold_grows(st: VSt, es: Seq<DirEntry>, n: int)
+    requires 0 <= n <= es.len(),
+    ensures grows(st, op_dir_fold(st, es, n)),
+        forall|i: int| 0 <= i < n && dir_scans(entry_path(#[trigger] es[i])) ==> op_dir_fold(st, es, n).plugins.contains(canon_or_self(entry_path(es[i]))),
+    decreases n,
+{
+    if n > 0 {
+        lemma_dir_fold_grows(st, es, n - 1);
+        lemma_C14_mark_analyze(op_dir_fold(st, es, n - 1), entry_path(es[n - 1]));
+    }
+}
+//@tags C14 C12
+/// scan_plugin_directory marks every `.py` file of the walk (depth <= 3, not `test_*`, UTF-8 name) — and only walks to depth 3
+pub proof fn lemma_C14_dir_scan_marks(st: VSt, dir: PV)
+    ensures grows(st, op_scan_dir(st, dir)),
+        forall|i: int| 0 <= i < walk_ok(dir, plugin_depth()).len() && dir_scans(entry_path(#[trigger] walk_ok(dir, plugin_depth())[i]))
+            ==> op_scan_dir(st, dir).plugins.contains(canon_or_self(entry_path(walk_ok(dir, plugin_depth())[i]))),
+        forall|i: int| 0 <= i < walk_ok(dir, plugin_depth()).len() ==> entry_depth(#[trigger] walk_ok(dir, plugin_depth())[i]) <= 3,
+{
+    let es = walk_ok(dir, plugin_depth());
+    lemma_dir_fold_grows(st, es, es.len() as int);
+    assert forall|i: int| 0 <= i < es.len() implies entry_depth(#[trigger] es[i]) <= 3 by { axiom_walk_depth(dir, plugin_depth(), i); }
+}
+proof fn lemma_entry_step_grows(st: VSt, sp: PV, e: EpV)
+    ensures grows(st, op_entry_step(st, sp, e).0),
+{
+    if let Some(p) = op_resolve_entry(st, sp, e.module) {
+        lemma_C14_dir_scan_marks(st, p.drop_last());
+        lemma_C14_mark_analyze(st, p);
+    }
+}
+proof fn lemma_entries_fold_grows(st: VSt, sp: PV, es: Seq<EpV>, k: int, n: int)
+    requires 0 <= k <= n <= es.len(),
+    ensures grows(op_entries_fold(st, sp, es, k).0, op_entries_fold(st, sp, es, n).0),
+    decreases n - k,
+{
+    if k < n {
+        lemma_entries_fold_grows(st, sp, es, k, n - 1);
+        lemma_entry_step_grows(op_entries_fold(st, sp, es, n - 1).0, sp, es[n - 1]);
+    }
+}
+//@tags C14
+/// one pytest11 entry whose module resolves to a module FILE: the file is scanned — marked as plugin file (canonical
+/// path) and analysed with its disk text, the mark already in place
+pub proof fn lemma_C14_entry_point_file_marked_and_analysed(st: VSt, sp: PV, e: EpV, p: PV)
+    requires op_resolve_entry(st, sp, e.module) == Some(p), file_name_v(p) != Some(init_py()), fs_is_file(p), path_ext_v(p) == Some(py_ext()),
+    ensures op_entry_step(st, sp, e).1, op_entry_step(st, sp, e).0 == op_mark_analyze(st, p),
+        op_entry_step(st, sp, e).0.plugins.contains(canon_or_self(p)),
+{
+    lemma_C14_mark_analyze(st, p);
+}
+//@tags C14
+/// … and a module that resolves to a package `__init__.py`: the package directory is scanned (lemma_C14_dir_scan_marks)
+pub proof fn lemma_C14_entry_point_package_scanned(st: VSt, sp: PV, e: EpV, p: PV)
+    requires op_resolve_entry(st, sp, e.module) == Some(p), file_name_v(p) == Some(init_py()),
+    ensures op_entry_step(st, sp, e) == (op_scan_dir(st, p.drop_last()), true),
+{}
+//@tags C14
+/// "every pytest11 entry of a dist-info / egg-info whose module resolves is marked as plugin file": entry k of
+/// entry_points.txt resolves to the file p  ==>  p is a plugin file when load_plugin_from_entry_point returns
+pub proof fn lemma_C14_every_resolving_entry_is_marked(st: VSt, dist: PV, sp: PV, k: int, p: PV)
+    requires fs_read(dist + str_pv(entry_points_txt())) is Some,
+        0 <= k < op_parse_pytest11(fs_read(dist + str_pv(entry_points_txt()))->0).len(),
+        op_resolve_entry(st, sp, op_parse_pytest11(fs_read(dist + str_pv(entry_points_txt()))->0)[k].module) == Some(p),
+        file_name_v(p) != Some(init_py()), fs_is_file(p), path_ext_v(p) == Some(py_ext()),
+    ensures op_load_plugin(st, dist, sp).0.plugins.contains(canon_or_self(p)), grows(st, op_load_plugin(st, dist, sp).0),
+{
+    let es = op_parse_pytest11(fs_read(dist + str_pv(entry_points_txt()))->0);
+    let n = es.len() as int;
+    lemma_entries_fold_grows(st, sp, es, 0, k);
+    lemma_entries_fold_grows(st, sp, es, k + 1, n);
+    lemma_entries_fold_grows(st, sp, es, 0, n);
+    let stk = op_entries_fold(st, sp, es, k).0;
+    assert(stk.er == st.er);
+    assert(op_resolve_entry(stk, sp, es[k].module) == Some(p));
+    lemma_C14_entry_point_file_marked_and_analysed(stk, sp, es[k], p);
+    assert(op_entries_fold(st, sp, es, k + 1).0 == op_entry_step(stk, sp, es[k]).0);
+}
+proof fn lemma_load_grows(st: VSt, dist: PV, sp: PV)
+    ensures grows(st, op_load_plugin(st, dist, sp).0),
+{
+    if let Some(c) = fs_read(dist + str_pv(entry_points_txt())) {
+        lemma_entries_fold_grows(st, sp, op_parse_pytest11(c), 0, op_parse_pytest11(c).len() as int);
+    }
+}
+proof fn lemma_dists_fold_grows(st: VSt, sp: PV, es: Seq<FsEntry>, k: int, n: int)
+    requires 0 <= k <= n <= es.len(),
+    ensures grows(op_dists_fold(st, sp, es, k).0, op_dists_fold(st, sp, es, n).0),
+    decreases n - k,
+{
+    if k < n {
+        lemma_dists_fold_grows(st, sp, es, k, n - 1);
+        lemma_load_grows(op_dists_fold(st, sp, es, n - 1).0, fse_path(es[n - 1]), sp);
+    }
+}
+//@tags C14
+/// both metadata flavours are looked at: entry k of site-packages named `*.dist-info` OR `*.egg-info` has its entry
+/// points loaded, in the state the entries before it left
+pub proof fn lemma_C14_dist_info_and_egg_info_loaded(st: VSt, sp: PV, es: Seq<FsEntry>, k: int)
+    requires 0 <= k < es.len(), is_dist_meta(es[k]),
+    ensures op_dists_fold(st, sp, es, k + 1).0 == op_load_plugin(op_dists_fold(st, sp, es, k).0, fse_path(es[k]), sp).0,
+        grows(op_dists_fold(st, sp, es, k + 1).0, op_dists_fold(st, sp, es, es.len() as int).0),
+{
+    lemma_dists_fold_grows(st, sp, es, k + 1, es.len() as int);
+}
+//@tags C14
+/// pytest's own fixtures: when `<sp>/_pytest` is a directory it is scanned first (after the editable-install discovery),
+/// and what it marks stays marked to the end of scan_pytest_plugins
+pub proof fn lemma_C14_pytest_builtins_scanned(st: VSt, sp: PV, idx: &PthIndex, i: int)
+    requires fs_exists(sp + str_pv(pytest_dir())), fs_is_dir(sp + str_pv(pytest_dir())),
+        0 <= i < walk_ok(sp + str_pv(pytest_dir()), plugin_depth()).len(),
+        dir_scans(entry_path(walk_ok(sp + str_pv(pytest_dir()), plugin_depth())[i])),
+    ensures op_scan_plugins(st, sp, idx).plugins.contains(canon_or_self(entry_path(walk_ok(sp + str_pv(pytest_dir()), plugin_depth())[i]))),
+{
+    let st1 = op_discover(st, sp, idx);
+    lemma_C14_dir_scan_marks(st1, sp + str_pv(pytest_dir()));
+    lemma_dists_fold_grows(op_internal(st1, sp), sp, dir_entries(sp), 0, dir_entries(sp).len() as int);
+}
+proof fn lemma_resolve_editable_first(er: Seq<EiV>, m: Seq<char>, j: int, k: int)
+    requires 0 <= j <= k < er.len(), forall|q: int| j <= q < k ==> op_resolve_ep((#[trigger] er[q]).source_root, m) is None,
+        op_resolve_ep(er[k].source_root, m) is Some,
+    ensures op_resolve_editable(er, m, j) == op_resolve_ep(er[k].source_root, m),
+    decreases k - j,
+{
+    if j < k { assert(op_resolve_ep(er[j].source_root, m) is None); lemma_resolve_editable_first(er, m, j + 1, k); }
+}
+//@tags C14
+/// an editable install's entry point resolves INTO its source root: not found under site-packages, found under the
+/// source root of install k (and of no earlier install)  ==>  that file is the resolution — and it lies under the
+/// (canonical) source root (unit scan_venv, lemma_C14_resolved_is_bounded)
+pub proof fn lemma_C14_editable_entry_point_resolves_in_source_root(st: VSt, sp: PV, m: Seq<char>, k: int)
+    requires op_resolve_ep(sp, m) is None, 0 <= k < st.er.len(), op_resolve_ep(st.er[k].source_root, m) is Some,
+        forall|q: int| 0 <= q < k ==> op_resolve_ep((#[trigger] st.er[q]).source_root, m) is None,
+    ensures op_resolve_entry(st, sp, m) == op_resolve_ep(st.er[k].source_root, m),
+        fs_canonical(st.er[k].source_root) is Some,
+        pv_is_prefix(fs_canonical(st.er[k].source_root)->0, op_resolve_entry(st, sp, m)->0),
+{
+    lemma_resolve_editable_first(st.er, m, 0, k);
+}
+proof fn lemma_scan_plugins_consts(st: VSt, sp: PV, idx: &PthIndex)
+    ensures op_scan_plugins(st, sp, idx).sp == st.sp, op_scan_plugins(st, sp, idx).ws == st.ws,
+        st.plugins.subset_of(op_scan_plugins(st, sp, idx).plugins),
+        op_scan_plugins(st, sp, idx).er == op_discover(st, sp, idx).er,
+{
+    let st1 = op_discover(st, sp, idx);
+    lemma_C14_dir_scan_marks(st1, sp + str_pv(pytest_dir()));
+    lemma_dists_fold_grows(op_internal(st1, sp), sp, dir_entries(sp), 0, dir_entries(sp).len() as int);
+}
+//@tags C14
+/// site_packages_paths gains the scanned site-packages directory exactly once per scan (first, before anything is
+/// analysed); a venv without site-packages changes nothing; the workspace root is never written
+pub proof fn lemma_C14_site_packages_recorded_once(st: VSt, venv: PV, idx: &PthIndex)
+    ensures match venv_sp(venv) {
+        Some(sp) => op_site_packages(st, venv, idx).sp == st.sp.push(sp),
+        None => op_site_packages(st, venv, idx) == st },
+        op_site_packages(st, venv, idx).ws == st.ws,
+{
+    if let Some(sp) = venv_sp(venv) { lemma_scan_plugins_consts(VSt { sp: st.sp.push(sp), ..st }, sp, idx); }
+}
+//@tags C14
+/// fact: a SECOND scan of the same workspace records the same directory again (the list has no duplicate check)
+pub proof fn lemma_C14_fact_rescan_duplicates_site_packages(st: VSt, venv: PV, idx: &PthIndex, idx2: &PthIndex)
+    requires venv_sp(venv) is Some,
+    ensures op_site_packages(op_site_packages(st, venv, idx), venv, idx2).sp == st.sp.push(venv_sp(venv)->0).push(venv_sp(venv)->0),
+{
+    lemma_C14_site_packages_recorded_once(st, venv, idx);
+    lemma_C14_site_packages_recorded_once(op_site_packages(st, venv, idx), venv, idx2);
+}
+//@tags C14
+/// editable installs: the list is REPLACED by the installs of the scanned directory (nothing accumulates): the result
+/// does not depend on the old list, so a rescan gives the same list, never duplicates
+pub proof fn lemma_C14_editables_replaced_not_accumulated(st: VSt, st2: VSt, sp: PV, idx: &PthIndex)
+    requires fs_is_dir(sp),
+    ensures op_discover(st, sp, idx).er == op_discover(st2, sp, idx).er,
+        op_discover(op_discover(st, sp, idx), sp, idx) == op_discover(st, sp, idx),
+{}
+proof fn lemma_plain_venv_names()
+    ensures plain_name(".venv"@), plain_name("venv"@), plain_name("env"@), venv_names().len() == 3,
+{
+    reveal_strlit(".venv"); reveal_strlit("venv"); reveal_strlit("env"); reveal_strlit("."); reveal_strlit("..");
+    assert(!".venv"@.contains('/')) by { if ".venv"@.contains('/') { let j = choose|j: int| 0 <= j < ".venv"@.len() && ".venv"@[j] == '/'; assert(false); } }
+    assert(!"venv"@.contains('/')) by { if "venv"@.contains('/') { let j = choose|j: int| 0 <= j < "venv"@.len() && "venv"@[j] == '/'; assert(false); } }
+    assert(!"env"@.contains('/')) by { if "env"@.contains('/') { let j = choose|j: int| 0 <= j < "env"@.len() && "env"@[j] == '/'; assert(false); } }
+    assert(".venv"@.len() == 5 && "venv"@.len() == 4 && "env"@.len() == 3);
+}
+//@tags C14
+/// which virtual environment is probed: `<root>/.venv`, then `<root>/venv`, then `<root>/env`, then `$VIRTUAL_ENV` —
+/// the FIRST that exists is the only one scanned
+pub proof fn lemma_C14_venv_probe_order(root: PV)
+    ensures fs_exists(root.push(".venv"@)) ==> venv_of(root) == Some(root.push(".venv"@)),
+        !fs_exists(root.push(".venv"@)) && fs_exists(root.push("venv"@)) ==> venv_of(root) == Some(root.push("venv"@)),
+        !fs_exists(root.push(".venv"@)) && !fs_exists(root.push("venv"@)) && fs_exists(root.push("env"@)) ==> venv_of(root) == Some(root.push("env"@)),
+        !fs_exists(root.push(".venv"@)) && !fs_exists(root.push("venv"@)) && !fs_exists(root.push("env"@)) ==>
+            venv_of(root) == (match env_var(virtual_env_name()) {
+                Some(t) => if fs_exists(str_pv(t)) { Some(canon_or_self(str_pv(t))) } else { None }, None => None::<PV> }),
+{
+    lemma_plain_venv_names();
+    axiom_plain_pv(".venv"@); axiom_plain_pv("venv"@); axiom_plain_pv("env"@);
+    assert(root + seq![".venv"@] =~= root.push(".venv"@));
+    assert(root + seq!["venv"@] =~= root.push("venv"@));
+    assert(root + seq!["env"@] =~= root.push("env"@));
+    assert(venv_names()[0] == ".venv"@ && venv_names()[1] == "venv"@ && venv_names()[2] == "env"@);
+    reveal_with_fuel(first_venv, 4);
+}
+//@tags C14
+/// NOT found (fact): with `<root>/.venv` present, nothing else is consulted — not `<root>/venv`, not `$VIRTUAL_ENV`;
+/// and if that `.venv` has no site-packages directory the scan finds NO plugin at all
+pub proof fn lemma_C14_fact_only_first_venv(st: VSt, root: PV, idx: &PthIndex)
+    requires fs_exists(root.push(".venv"@)), venv_sp(root.push(".venv"@)) is None,
+    ensures op_venv(st, root, idx) == st,
+{
+    lemma_C14_venv_probe_order(root);
+}
+//@tags C14
+/// NOT found (fact): an `.egg-link` entry of site-packages (setup.py develop) is not a metadata directory: skipped
+pub proof fn lemma_C14_fact_egg_link_skipped(st: VSt, sp: PV, e: FsEntry)
+    requires ends_with_v(lossy_name_v(fse_path(e)), ".egg-link"@),
+    ensures !is_dist_meta(e), op_dist_step(st, sp, e) == (st, 0nat),
+{
+    reveal_strlit(".egg-link"); reveal_strlit(".egg-info"); reveal_strlit(".dist-info");
+    let n = lossy_name_v(fse_path(e));
+    let l = n.len() as int;
+    assert(n.subrange(l - 9, l) == ".egg-link"@);
+    assert(n.subrange(l - 9, l)[8] == 'k');
+    if ends_with_v(n, egg_info_sfx()) { assert(n.subrange(l - 9, l) == ".egg-info"@); assert(".egg-info"@[8] == 'o'); }
+    if ends_with_v(n, dist_info_sfx()) { assert(n.subrange(l - 10, l) == ".dist-info"@); assert(n.subrange(l - 10, l)[9] == 'o'); assert(n[l - 1] == 'o'); assert(n.subrange(l - 9, l)[8] == n[l - 1]); }
+}
+//@tags C14
+/// NOT found (fact): an entry point whose module resolves nowhere (namespace package, import-hook editable install
+/// whose `.pth` gave no source root, module outside the scanned site-packages) is skipped without a trace
+pub proof fn lemma_C14_fact_unresolved_entry_is_skipped(st: VSt, sp: PV, e: EpV)
+    requires op_resolve_entry(st, sp, e.module) is None,
+    ensures op_entry_step(st, sp, e) == (st, false),
+{}
+//@tags C14
+/// NOT found (fact): an editable install whose `.pth` yields no source root is not recorded at all
+pub proof fn lemma_C14_fact_editable_without_pth_root_not_recorded(sp: PV, idx: &PthIndex, e: FsEntry)
+    requires match op_dist_name(lossy_name_v(fse_path(e))) { Some(nm) => op_pth_root(sp, idx, nm.0, nm.1) is None, None => true },
+    ensures op_editable_of(sp, idx, e) is None,
+{}
+
+// ---- vacuity guards: each of these must FAIL ----------------------------------------------------------------------------------
+proof fn canary_nothing_marked(st: VSt, p: PV) requires path_ext_v(p) == Some(py_ext()) ensures op_scan_single(st, p).plugins == st.plugins {}
+proof fn canary_non_py_marked(st: VSt, p: PV) ensures op_scan_single(st, p).plugins.contains(canon_or_self(p)) {}
+/// the analysis runs before the mark
+proof fn canary_analysis_before_mark(st: VSt, p: PV, t: Seq<char>) requires fs_read(p) == Some(t) ensures op_mark_analyze(st, p).idx == an_eff(st, p, t, true) {}
+/// analyze_file and analyze_file_fresh are the same thing
+proof fn canary_fresh_is_reanalyze(st: VSt, p: PV, t: Seq<char>) ensures an_eff(st, p, t, true) == an_eff(st, p, t, false) {}
+/// a second venv is scanned as well
+proof fn canary_second_venv_scanned(st: VSt, root: PV, idx: &PthIndex)
+    requires fs_exists(root.push(".venv"@)), fs_exists(root.push("venv"@))
+    ensures op_venv(st, root, idx) == op_site_packages(st, root.push("venv"@), idx) { lemma_C14_venv_probe_order(root); }
+/// editable installs accumulate over scans
+proof fn canary_editables_accumulate(st: VSt, sp: PV, idx: &PthIndex, x: EiV)
+    requires fs_is_dir(sp), st.er == seq![x] ensures op_discover(st, sp, idx).er.len() >= 1 {}
+/// egg-info directories are skipped
+proof fn canary_egg_info_skipped(st: VSt, sp: PV, e: FsEntry)
+    requires ends_with_v(lossy_name_v(fse_path(e)), egg_info_sfx()) ensures op_dist_step(st, sp, e) == (st, 0nat) {}
+/// the site-packages directory is not recorded
+proof fn canary_sp_not_recorded(st: VSt, venv: PV, idx: &PthIndex)
+    requires venv_sp(venv) is Some ensures op_site_packages(st, venv, idx).sp == st.sp { lemma_C14_site_packages_recorded_once(st, venv, idx); }
+/// the editable source roots are not consulted
+proof fn canary_editable_roots_ignored(st: VSt, sp: PV, m: Seq<char>) requires op_resolve_ep(sp, m) is None ensures op_resolve_entry(st, sp, m) is None {}
+/// the assumed primitives are contradictory
+proof fn canary_prims_inconsistent(s: &str, dir: PV, e: FsEntry, p: PV) requires walk_ok(dir, 3).len() > 0, file_name_v(p) is Some ensures false {
+    lemma_fits(s); axiom_walk_depth(dir, 3, 0); axiom_entry_name(e); axiom_file_name_parent(p); axiom_pth_enum(&arbitrary::<PthIndex>());
+}
+/// the walk is unbounded
+proof fn canary_walk_unbounded(dir: PV, i: int) requires 0 <= i < walk_ok(dir, 3).len() ensures entry_depth(walk_ok(dir, 3)[i]) > 3 { axiom_walk_depth(dir, 3, i); }
 
 } // verus!
 fn main() {}
